@@ -168,9 +168,11 @@ impl<Meta> Archive<Meta> {
 
         // Step 1. Go over each index bucket and collect all the objects.
         // Check that the name hashes correctly.
+        let mut guard = ChainGuard::new(self.file.size);
         for idx in 0.. usize_to_u64(self.meta.bucket_count) {
             let mut start = self.get_index(idx)?;
             while let Some(pos) = start {
+                guard.visit()?;
                 let (header, name) = ObjectHeader::read_with_name(
                     &self.file, pos.into()
                 )?;
@@ -190,6 +192,7 @@ impl<Meta> Archive<Meta> {
         // Step 2. Go over the empty space.
         let mut start = self.get_empty_index()?;
         while let Some(pos) = start {
+            guard.visit()?;
             let header = ObjectHeader::read(&self.file, pos.into())?;
             objects.push((u64::from(pos), header.size));
             stats.empty_count += 1;
@@ -524,7 +527,9 @@ impl<Meta: ObjectMeta> Archive<Meta> {
         }
 
         // We are further down the chain.
+        let mut guard = ChainGuard::new(self.file.size);
         while let Some(pos) = curr {
+            guard.visit()?;
             let header = ObjectHeader::read(&self.file, pos.into())?;
             if header.next == start {
                 ObjectHeader::update_next(pos.into(), next, &mut self.file)?;
@@ -543,7 +548,9 @@ impl<Meta: ObjectMeta> Archive<Meta> {
     ) -> Result<Option<FoundObject>, ArchiveError> {
         let mut start = self.get_index(hash)?;
         let mut prev = None;
+        let mut guard = ChainGuard::new(self.file.size);
         while let Some(pos) = start {
+            guard.visit()?;
             let (header, object_name) = ObjectHeader::read_with_name(
                 &self.file, pos.into()
             )?;
@@ -573,7 +580,9 @@ impl<Meta: ObjectMeta> Archive<Meta> {
         }
         let size = Self::page_object_size(name, data);
         let mut candidates = Vec::new();
+        let mut guard = ChainGuard::new(self.file.size);
         while let Some(pos) = start {
+            guard.visit()?;
             let header = ObjectHeader::read(&self.file, pos.into())?;
             start = header.next;
             if Self::fits(header.size, size) {
@@ -853,6 +862,9 @@ pub struct ObjectsIter<'a, Meta> {
 
     /// The next item in the currently visited bucket.
     next: Option<NonZeroU64>,
+
+    /// The guard against going in circles.
+    guard: ChainGuard,
 }
 
 impl<'a, Meta> ObjectsIter<'a, Meta> {
@@ -862,6 +874,7 @@ impl<'a, Meta> ObjectsIter<'a, Meta> {
             archive,
             buckets: 1..usize_to_u64(archive.meta.bucket_count),
             next: archive.get_index(0)?,
+            guard: ChainGuard::new(archive.file.size),
         })
     }
 }
@@ -877,6 +890,12 @@ impl<'a, Meta: ObjectMeta> ObjectsIter<'a, Meta> {
     ) -> Result<Option<(Cow<'a, [u8]>, Meta, Cow<'a, [u8]>)>, ArchiveError> {
         loop {
             if let Some(pos) = self.next {
+                if let Err(err) = self.guard.visit() {
+                    // Make this the last item.
+                    self.next = None;
+                    self.buckets = 0..0;
+                    return Err(err)
+                }
                 let (next, res) = self.archive.file.read(pos.into(), |read| {
                     let header = ObjectHeader::read_from(read)?;
                     let name = read.read_slice(header.name_len)?;
@@ -901,6 +920,37 @@ impl<'a, Meta: ObjectMeta> Iterator for ObjectsIter<'a, Meta> {
 
     fn next(&mut self) -> Option<Self::Item> {
         self.transposed_next().transpose()
+    }
+}
+
+
+//------------ ChainGuard ----------------------------------------------------
+
+/// Protects a walk along chains of objects against loops.
+///
+/// Objects do not overlap, so an archive cannot contain more objects than
+/// headers fit into the file. A walk that visits more is going in circles
+/// because the file is corrupt.
+struct ChainGuard {
+    /// The number of objects that may still be visited.
+    left: u64,
+}
+
+impl ChainGuard {
+    /// Creates a new guard for an archive file of the given size.
+    fn new(file_size: u64) -> Self {
+        ChainGuard { left: file_size / ObjectHeader::SIZE }
+    }
+
+    /// Accounts for visiting an object.
+    fn visit(&mut self) -> Result<(), ArchiveError> {
+        match self.left.checked_sub(1) {
+            Some(left) => {
+                self.left = left;
+                Ok(())
+            }
+            None => Err(ArchiveError::Corrupt("loop in object chain"))
+        }
     }
 }
 
